@@ -34,7 +34,7 @@ TCmdRet == /\ Is("cmdret") /\ <<Ev.c, Ev.n>> \in DOMAIN handled
 TReply == /\ Is("reply") /\ Ev.from = Ev.c /\ Ev.c \notin closed
           /\ <<Ev.from, Ev.n>> \in DOMAIN handled        \* (the publish of the reply may still be returning)
           /\ Ev.ok = handled[<<Ev.from, Ev.n>>]
-          /\ (~Ev.ok) => Ev.errtext = "scripted handler error"
+          /\ (~Ev.ok) => Ev.errtext = (IF Ev.empty THEN "" ELSE "scripted handler error")      \* the handler's error text, also when it is empty
           /\ UNCHANGED <<handled, published, fin, closed, endedSet, sent>> /\ K /\ Adv
 TTimeoutReply == Is("timeoutreply") /\ Ev.c \in endedSet /\ Ev.c \notin closed
                  /\ UNCHANGED <<handled, published, fin, closed, endedSet, sent>> /\ K /\ Adv
